@@ -153,6 +153,10 @@ def scenarios():
                 S.append((f"raw-aligned{total}", setcmd(b"k", _val(L)), Op("raw_command", b"get k", end_tokens=b"END\r\n"), {}))
                 S.append((f"get-aligned{total}", setcmd(b"k", _val(L)), Op("get", "k"), {}))
                 S.append((f"raw-aligned{total}-crlf", setcmd(b"k", _val(L)), Op("raw_command", b"get k", end_tokens=b"\r\nEND\r\n"), {}))
+    # the end token occurs more than once in what the server sends: the segment ends at its FIRST occurrence
+    S.append(("raw-token-twice", setcmd(b"k", b"xEND\r\ny"), Op("raw_command", b"get k", end_tokens=b"END\r\n"), {}))
+    S.append(("raw-token-thrice", setcmd(b"k", b"ab;cd;ef"), Op("raw_command", b"get k", end_tokens=b";"), {}))
+    S.append(("raw-default-multiline", setcmd(b"k", b"l1\r\nl2"), Op("raw_command", b"get k"), {}))
     S.append(("raw-onebyte", b"", Op("raw_command", b"version", end_tokens=b"\n"), {}))
     S.append(("raw-overlap", setcmd(b"k", b"aaaab-tail"), Op("raw_command", b"get k", end_tokens=b"aab"), {}))
     S.append(("raw-overlap2", setcmd(b"k", b"ababac"), Op("raw_command", b"get k", end_tokens=b"abac"), {}))
@@ -276,6 +280,15 @@ def _worker(job, chk):
             nseg += 1
             lens = tuple(b - a for a, b in zip((0,) + cuts, cuts + (len(stream),)))
             chk.outcome((name, lens if len(lens) < 8 else hash(lens), ei if len(ei) < 8 else len(ei)))
+            if got == base and got[0] == "ret" and op.name != "raw_command" and not sock.closed and sock.i < len(sock.pieces):
+                # the call returned, but part of its reply was never read from the socket: the next call
+                # on this connection would start in the middle of this one's reply
+                left = b"".join(sock.pieces[sock.i:])
+                chk.violation(
+                    f"segmentation|{op.name}|{name}|reply-tail-left-unread",
+                    f"{op.label} on reply {stream[:60]!r}{'...' if len(stream) > 60 else ''} cut at {list(cuts)[:12]} returned "
+                    f"{connshort(got)} but left {left[:20]!r} of its own reply unread on the connection",
+                    {"scenario": name, "cuts": list(cuts), "eintr": list(ei)})
             if got != base:
                 kind = _classify(cuts, ei, stream)
                 chk.violation(
@@ -319,8 +332,11 @@ def replay(detail):
     except Exception as e:  # noqa
         return [f"{scn[2].label}: the undivided reply is not parsed: {type(e).__name__}: {e}"]
     base, _ = run_seg(scn, stream, (), ())
-    got, _ = run_seg(scn, stream, tuple(detail["cuts"]), tuple(detail["eintr"]))
+    got, sock = run_seg(scn, stream, tuple(detail["cuts"]), tuple(detail["eintr"]))
     print("    stream:", stream[:200])
     print("    whole :", connshort(base))
     print("    cut   :", connshort(got))
-    return [] if got == base == ("ret", res) else [f"{scn[2].label}: {connshort(got)} != {connshort(base)}"]
+    out = [] if got == base == ("ret", res) else [f"{scn[2].label}: {connshort(got)} != {connshort(base)}"]
+    if not out and scn[2].name != "raw_command" and not sock.closed and sock.i < len(sock.pieces):
+        out.append(f"{scn[2].label}: returned but left {b''.join(sock.pieces[sock.i:])[:20]!r} of its reply unread")
+    return out
